@@ -61,7 +61,32 @@
        ResetLaw               every call that empties via Reset leaves the state New(<<>>)
        Utf8RoundTrip, Utf8Strict (ASSUME)   the UTF-8 encode/decode tables agree with each other
      BufferImpl.tla checks with TLC that the storage algorithm of bytes.Buffer (capacity, slide,
-     reallocation) refines this capacity-free model (invariants Agree, Rel).                      *)
+     reallocation) refines this capacity-free model (invariants Agree, Rel, HRel).
+
+   OWNERSHIP OF BYTE SLICES  (second variable `held`)
+     Every call that hands out or takes a byte slice (or string) says who owns the bytes afterwards.
+     `held` is the sequence of results / arguments the CALLER still keeps (oldest first, at most
+     `Hold` of them, the oldest is forgotten first); each element is [tag, val]:
+       "own"    a private copy the caller may keep and overwrite for ever: the result of ReadBytes,
+                the bytes Read stored into p, and the ARGUMENT of Write / WriteString after the call
+                (the buffer copied it).  No later call may change val, and a store through the slice
+                never reaches the buffer.
+       "str"    an immutable string (ReadString, String): no later call may change it.
+       "bytes"  the result of Bytes(): aliases the unread bytes "at least until the next buffer
+                modification": a store through it is a store into data, and shows through every
+                other Bytes() result of the same window.
+       "next"   the result of Next(n): "only valid until the next call to a read or write method";
+                it is the consumed region itself, so a store to its last byte is what UnreadByte
+                will step back over (prev).
+     The window of an alias ends with the next call of ANY method other than the observers Len /
+     Bytes / String (Cap / Available): HCall then removes it from `held` (EndWindows) - the model
+     keeps exactly the values that must still be intact, everything bytes.Buffer leaves undefined
+     (an alias after its window) is absent and so unconstrained.  Operators: HCall (a call: end the
+     windows, retain the new result), CanPoke / PokeSt / PokeHeld (the caller stores one byte through
+     a retained slice), FillHeld (the caller overwrites a whole owned slice).  Invariants HeldOK,
+     AliasCoherent (a live Bytes alias IS data, a live Next alias ends in prev, at most one of the
+     latter).  The trace specification compares the current contents of every retained slice
+     (`hv`) with `held` after every logged step.                                                  *)
 EXTENDS Integers, Sequences, FiniteSets, TLC
 
 CONSTANTS
@@ -72,9 +97,12 @@ CONSTANTS
     MaxLen,       \* bound on Len(data) in the exhaustive model
     Inits,        \* set of byte sequences a buffer may be constructed with
     RuneSpace,    \* set of integers over which the UTF-8 encode/decode tables are cross-checked
-    DecBytes      \* set of bytes: all 4-byte strings over it are cross-checked against Decode
+    DecBytes,     \* set of bytes: all 4-byte strings over it are cross-checked against Decode
+    Hold,         \* exhaustive model: how many results the caller keeps (oldest forgotten first)
+    Retain,       \* exhaustive model: names of the calls whose result / argument the caller keeps
+    PokeVals      \* exhaustive model: byte values the caller stores through a kept slice
 
-VARIABLE st
+VARIABLES st, held
 
 -----------------------------------------------------------------------------
 (* byte-sequence helpers *)
@@ -237,38 +265,88 @@ OpContents(s) == R(s, 0, 0, s.data, Nil, NoPanic)                \* Bytes() and 
 OpNilString(s) == R(s, 0, 0, <<60, 110, 105, 108, 62>>, Nil, NoPanic)   \* String() on a nil pointer: "<nil>"
 
 -----------------------------------------------------------------------------
+(* ownership: the byte slices the caller keeps (see header) *)
+
+Observers == {"Len", "Bytes", "String", "NilString"}        \* calls that do not modify the buffer
+Modifies(op) == op \notin Observers
+
+\* what the caller holds after the call: an owned copy, an immutable string, or an alias
+HandTag(op) == CASE op \in {"Write", "WriteString", "Read", "ReadBytes"} -> "own"
+                 [] op \in {"ReadString", "String"} -> "str"
+                 [] op = "Bytes" -> "bytes"
+                 [] op = "Next" -> "next"
+                 [] OTHER -> "none"
+
+IsOwned(h) == h.tag \in {"own", "str"}
+IsAlias(h) == h.tag \in {"bytes", "next"}
+EndWindows(H) == SelectSeq(H, IsOwned)                      \* a modification: every alias becomes undefined
+Push(H, h, cap) == IF cap <= 0 THEN H ELSE IF Len(H) >= cap THEN Append(Tail(H), h) ELSE Append(H, h)
+
+\* the call op (outcome o, byte argument arg) seen from the caller who keeps (keep) or drops its result
+HCall(H, op, o, arg, keep, cap) ==
+    LET H1 == IF Modifies(op) THEN EndWindows(H) ELSE H
+        v == IF op \in {"Write", "WriteString"} THEN arg ELSE o.b
+    IN IF keep /\ HandTag(op) # "none" /\ o.pan = NoPanic /\ v # <<>>
+       THEN Push(H1, [tag |-> HandTag(op), val |-> v], cap) ELSE H1
+
+\* the caller executes  slice[j] = v  on the k-th kept slice (j counts from 1)
+CanPoke(H, k, j) == k \in DOMAIN H /\ H[k].tag \in {"own", "bytes", "next"} /\ j \in 1..Len(H[k].val)
+PokeSt(s, h, j, v) ==
+    CASE h.tag = "bytes" -> [s EXCEPT !.data[j] = v]                      \* Bytes() IS the unread data
+      [] h.tag = "next" -> IF j = Len(h.val) /\ s.prev # <<>>                \* the byte UnreadByte steps back over
+                           THEN [s EXCEPT !.prev[Len(s.prev)] = v] ELSE s
+      [] OTHER -> s                                                       \* a private copy: invisible to the buffer
+PokeHeld(H, k, j, v) ==
+    [i \in DOMAIN H |-> IF i = k \/ (H[i].tag = "bytes" /\ H[k].tag = "bytes")   \* all live Bytes() results are one region
+                        THEN [H[i] EXCEPT !.val[j] = v] ELSE H[i]]
+
+\* the caller overwrites every byte of an owned slice (and appends into its spare capacity)
+CanFill(H, k) == k \in DOMAIN H /\ H[k].tag = "own"
+FillHeld(H, k) == [H EXCEPT ![k].val = [i \in 1..Len(H[k].val) |-> 255 - H[k].val[i]]]
+
+-----------------------------------------------------------------------------
 (* the exhaustive model: every call with every argument of the constant sets, from every state *)
 
 Fits(b) == Len(st.data) + Len(b) <= MaxLen
+HC(op, o, arg) == HCall(held, op, o, arg, op \in Retain, Hold)      \* (a state function: no primes)
 
 Write(k) == Fits(Payloads[k]) /\ st' = OpWrite(st, Payloads[k]).st
+            /\ held' = HC("Write", OpWrite(st, Payloads[k]), Payloads[k])
 WriteString(k) == Fits(Payloads[k]) /\ st' = OpWrite(st, Payloads[k]).st
-WriteByte(c) == Fits(<<c>>) /\ st' = OpWriteByte(st, c).st
-WriteRune(r) == Fits(Encode(r)) /\ st' = OpWriteRune(st, r).st
-Read(k) == k >= 0 /\ st' = OpRead(st, k).st
-Next_(k) == st' = OpNext(st, k).st
-ReadByte == st' = OpReadByte(st).st
-ReadRune == st' = OpReadRune(st).st
-UnreadByte == st' = OpUnreadByte(st).st
-UnreadRune == st' = OpUnreadRune(st).st
-ReadBytes(d) == st' = OpReadSlice(st, d).st
-ReadString(d) == st' = OpReadSlice(st, d).st
-Truncate(k) == st' = OpTruncate(st, k).st
-Reset == st' = OpReset(st).st
+                  /\ held' = HC("WriteString", OpWrite(st, Payloads[k]), Payloads[k])
+WriteByte(c) == Fits(<<c>>) /\ st' = OpWriteByte(st, c).st /\ held' = HC("WriteByte", OpWriteByte(st, c), <<>>)
+WriteRune(r) == Fits(Encode(r)) /\ st' = OpWriteRune(st, r).st /\ held' = HC("WriteRune", OpWriteRune(st, r), <<>>)
+Read(k) == k >= 0 /\ st' = OpRead(st, k).st /\ held' = HC("Read", OpRead(st, k), <<>>)
+Next_(k) == st' = OpNext(st, k).st /\ held' = HC("Next", OpNext(st, k), <<>>)
+ReadByte == st' = OpReadByte(st).st /\ held' = HC("ReadByte", OpReadByte(st), <<>>)
+ReadRune == st' = OpReadRune(st).st /\ held' = HC("ReadRune", OpReadRune(st), <<>>)
+UnreadByte == st' = OpUnreadByte(st).st /\ held' = HC("UnreadByte", OpUnreadByte(st), <<>>)
+UnreadRune == st' = OpUnreadRune(st).st /\ held' = HC("UnreadRune", OpUnreadRune(st), <<>>)
+ReadBytes(d) == st' = OpReadSlice(st, d).st /\ held' = HC("ReadBytes", OpReadSlice(st, d), <<>>)
+ReadString(d) == st' = OpReadSlice(st, d).st /\ held' = HC("ReadString", OpReadSlice(st, d), <<>>)
+Truncate(k) == st' = OpTruncate(st, k).st /\ held' = HC("Truncate", OpTruncate(st, k), <<>>)
+Reset == st' = OpReset(st).st /\ held' = HC("Reset", OpReset(st), <<>>)
 GrowKinds == {"fit", "nofit", "neg", "huge"}
 GrowArg(kind) == CASE kind = "fit" -> 0 [] kind = "nofit" -> 1 [] kind = "neg" -> -1 [] OTHER -> Huge
-Grow(kind) == st' = OpGrow(st, GrowArg(kind), 0).st
+Grow(kind) == st' = OpGrow(st, GrowArg(kind), 0).st /\ held' = HC("Grow", OpGrow(st, GrowArg(kind), 0), <<>>)
 ReadFrom(k, fin) == Fits(Payloads[k]) /\ st' = OpReadFrom(st, Payloads[k], fin).st
+                    /\ held' = HC("ReadFrom", OpReadFrom(st, Payloads[k], fin), <<>>)
 \* writer behaviours: "ok" takes everything, "over" claims one byte too many, "short"/"err" take
 \* at most m bytes and return nil / an error
 WriterCount(s, m, fin) == CASE fin = "ok" -> Len(s.data) [] fin = "over" -> Len(s.data) + 1
                             [] OTHER -> MinI(m, Len(s.data))
-WriteTo(m, fin) == st' = OpWriteTo(st, WriterCount(st, m, fin), IF fin = "err" THEN "injected" ELSE Nil).st
-Len_ == st' = OpLen(st).st
-Bytes_ == st' = OpContents(st).st
-String_ == st' = OpContents(st).st
+WriteTo(m, fin) == LET o == OpWriteTo(st, WriterCount(st, m, fin), IF fin = "err" THEN "injected" ELSE Nil)
+                   IN st' = o.st /\ held' = HC("WriteTo", o, <<>>)
+Len_ == st' = OpLen(st).st /\ held' = HC("Len", OpLen(st), <<>>)
+Bytes_ == st' = OpContents(st).st /\ held' = HC("Bytes", OpContents(st), <<>>)
+String_ == st' = OpContents(st).st /\ held' = HC("String", OpContents(st), <<>>)
+\* not a call of the buffer: the caller stores a byte through a slice it kept, at its first or
+\* its last position (the last byte of a Next() result is the one UnreadByte steps back over)
+PokeIdx(k, at) == IF at = "first" THEN 1 ELSE Len(held[k].val)
+Poke(k, at, v) == k \in DOMAIN held /\ CanPoke(held, k, PokeIdx(k, at))
+                  /\ st' = PokeSt(st, held[k], PokeIdx(k, at), v) /\ held' = PokeHeld(held, k, PokeIdx(k, at), v)
 
-Init == st \in {New(b) : b \in Inits}
+Init == st \in {New(b) : b \in Inits} /\ held = <<>>
 
 Next ==
     \/ \E k \in 1..Len(Payloads) : Write(k)
@@ -286,11 +364,19 @@ Next ==
     \/ \E fin \in {"ok", "over"} : WriteTo(0, fin)
     \/ \E m \in 0..MaxLen, fin \in {"short", "err"} : WriteTo(m, fin)
     \/ Len_ \/ Bytes_ \/ String_
+    \/ \E k \in 1..Hold, at \in {"first", "last"}, v \in PokeVals : Poke(k, at, v)
 
-Spec == Init /\ [][Next]_st
+Spec == Init /\ [][Next]_<<st, held>>
+
+\* VIEW of the exhaustive model.  The bytes of an owned result never influence any later step (that
+\* is the contract: PokeSt ignores them, HCall only moves them), and a live Bytes() result is data
+\* (AliasCoherent); so states that differ only there have the same future, and TLC explores one
+\* representative per class.  The trace specification has no view: there every value counts.
+HeldView == [k \in DOMAIN held |-> [tag |-> held[k].tag, n |-> IF held[k].tag = "next" THEN Len(held[k].val) ELSE 0]]
+View == <<st, HeldView>>
 
 \* rendered into the dot dump: one JSON-ish string per state (parsed by the orchestrator)
-DumpAlias == [j |-> ToString(st.data) \o "|" \o ToString(st.lr) \o "|" \o ToString(st.prev)]
+DumpAlias == [j |-> ToString(st.data) \o "|" \o ToString(st.lr) \o "|" \o ToString(st.prev) \o "|" \o ToString(Len(held))]
 
 -----------------------------------------------------------------------------
 (* invariants, evaluated by TLC in every reachable state *)
@@ -308,9 +394,13 @@ PrevShape ==
     \* come from Grow having moved the data
     /\ st = Mk(st.data, st.lr, st.prev)
 
-\* after ReadRune the kept bytes decode to a rune of exactly that size
-RuneAgain == (st.lr > 0 /\ st.prev # <<>>) =>
-                 LET d == Decode(st.prev \o st.data) IN d.size = st.lr /\ d.size = Len(st.prev)
+\* after ReadRune the bytes kept in prev are exactly that rune.  (Stated over the operator and not
+\* over the current state: a store through a Bytes() result may legitimately turn the bytes
+\* behind an already consumed rune into a different sequence.)
+RuneAgain == st.data # <<>> =>
+                 LET o == OpReadRune(st)
+                     d == Decode(o.st.prev \o o.st.data)
+                 IN o.st.lr = o.m /\ o.st.prev = Take(st.data, o.m) /\ d.size = o.m /\ d.r = o.n
 
 UnreadLaws ==
     /\ st.data # <<>> =>
@@ -359,6 +449,28 @@ ResetLaw ==
     /\ OpReset(st).st = Fresh /\ OpTruncate(st, 0).st = Fresh
     /\ OpWriteTo(st, Len(st.data), Nil).st = Fresh
     /\ st.data = <<>> => (OpRead(st, 0).st = Fresh /\ OpReadByte(st).st = Fresh /\ OpReadRune(st).st = Fresh)
+
+\* shape of the caller's side
+HeldOK == /\ Len(held) <= Hold
+          /\ \A k \in DOMAIN held : /\ held[k].tag \in {"own", "str", "bytes", "next"}
+                                     /\ IsByteSeq(held[k].val) /\ held[k].val # <<>>
+
+\* inside its window an alias and the buffer are the same bytes
+AliasCoherent == \A k \in DOMAIN held :
+    /\ held[k].tag = "bytes" => held[k].val = st.data
+    /\ held[k].tag = "next" => (st.lr = -1 /\ st.prev = LastK(held[k].val, 1))
+    /\ \A i \in DOMAIN held : (held[k].tag = "next" /\ held[i].tag = "next") => i = k
+
+\* owned results are out of the buffer's reach; a modification ends every window and keeps every
+\* owned result; an observer ends none.  Stated over the operators, from the current state.
+OwnLaw ==
+    /\ \A k \in DOMAIN held : held[k].tag = "own" =>
+          \A j \in 1..Len(held[k].val), v \in PokeVals : PokeSt(st, held[k], j, v) = st
+    /\ \A d \in ByteArgs : LET H == HCall(held, "ReadBytes", OpReadSlice(st, d), <<>>, FALSE, Hold)
+                           IN SelectSeq(H, IsAlias) = <<>> /\ H = SelectSeq(held, IsOwned)
+    /\ \A k \in 1..Len(Payloads) : HCall(held, "Write", OpWrite(st, Payloads[k]), Payloads[k], FALSE, Hold)
+                                      = SelectSeq(held, IsOwned)
+    /\ HCall(held, "String", OpContents(st), <<>>, FALSE, Hold) = held
 
 -----------------------------------------------------------------------------
 (* the UTF-8 tables themselves, checked by TLC before any state is explored *)
